@@ -27,13 +27,24 @@ if os.environ.get("RV_C17_THOROUGH_CASES"):        # smoke-testing the thorough 
     PLAN["thorough"]["min_nontrivial"] = PLAN["thorough"]["cases"] // 3
 RULE = ("one random 2-TBN template per case (kinds: hmm, random 2-3 variables, two interface nodes, inter-slice edge to "
         "another variable, variable without intra-slice edge, 4 (thorough: also 5) variables; cards 2-3 (2-4 thorough); 1-4 interface "
-        "nodes; zeros / deterministic columns in 30%; string state names in 20%; shuffled edge, CPD and parent order) "
-        "x 7 (10 thorough) queries: horizon T in 0..4 (0..6), 1-2 variables of one slice (70%) or 2-4 variables in "
-        "2-3 slices (30%), evidence styles none / random / interface-heavy / one variable in every slice / only later "
-        "/ only earlier slices, P(e) > 0 by the oracle; each query is run with forward_inference (expected "
-        "P(X_t | e_0:t)) and with query or backward_inference (expected P(X_t | e_0:T)) on one shared engine. Also "
-        "per case: get_constant_bn(t_slice = 0 and 1|2|5) compared CPD by CPD and edge by edge with the template; "
-        "initialize_initial_state on the complete model (must be a no-op) and on a model where variables without "
+        "nodes; zeros / deterministic columns in 30%; in 25% about half of the columns hold entries 1e-12..1e-4 or 0 next "
+        "to one O(1) entry; string state names in 20% (a third of them falsy / numeric-looking: '', '0', 'None', "
+        "'False', '-1', 'x y'); variable names letters (70%), integers incl. 0 and multi-digit (20%) or strings with "
+        "'_' / the empty string (10%); shuffled edge, CPD and parent order) "
+        "x 7 (10 thorough) queries: horizon T in 0..6 (0..9), 1-2 variables of one slice (70%) or 2-4 variables in "
+        "2-3 slices (30%), evidence styles none (passed as None or as {}) / random / interface-heavy / one variable in "
+        "every slice / only later / only earlier slices, any state with P(e) > 1e-200 by the oracle; each query is run "
+        "with forward_inference (expected P(X_t | e_0:t)) and with query or backward_inference (expected "
+        "P(X_t | e_0:T)), in either order, on ONE shared engine; CALL SEQUENCES on that engine: up to two 'twin' calls "
+        "right after their original with the same evidence variables but other slice-0 states, the first call "
+        "repeated after all others, every returned factor overwritten by the caller after it was judged, the "
+        "caller's evidence dict compared before/after. Also per case on ONE model object: initialize_initial_state "
+        "twice (no-op both times), get_constant_bn(t_slice = 0, then 1|2|5, then 0 again after the first returned "
+        "network was overwritten and emptied by the caller) compared CPD by CPD and edge by edge with the template, "
+        "the engine, then an in-place EDIT (a CPD removed and replaced; for a variable without inter-slice parents "
+        "possibly both copies removed and the slice-1 one left to initialize_initial_state) after which the CPD list, "
+        "get_constant_bn and a new engine (2 queries x 2 modes) are judged against the edited template; and "
+        "initialize_initial_state on a separate model where variables without "
         "inter-slice parents have only one of their two CPDs (the other must be an unaltered copy, parents matched "
         "by name). non-trivial: the engine could be built and at least one call with evidence and horizon >= 1 "
         "returned marginals that were compared; distinct by digest of the whole spec")
@@ -42,8 +53,11 @@ ASSUMPTIONS = ["reference marginals: own forward-backward recursion over slice-s
                "forward_inference is read as filtering: evidence later than the queried slice is not used for that slice",
                "every template variable has at least one edge (the model class cannot represent an edgeless variable "
                "in slice 1); variables with an inter-slice parent always get both CPDs",
-               "float64 comparisons at 1e-9; a wrong answer on the shared engine is re-run on a fresh engine before "
-               "it is attributed"]
+               "float64; every marginal entry is compared relative to its own size (|got - want| <= 1e-13 + 1e-7 |want|), "
+               "copied CPD entries at rtol 1e-9; a wrong answer on the shared engine is re-run on a fresh engine before "
+               "it is attributed (right there => c17:engine-history)",
+               "a ValueError of DBNInference(model) for a template whose slice graph is disconnected is the library's "
+               "documented refusal (counted as a note)"]
 REACH = [
     "pgmpy.inference.dbn_inference:DBNInference.__init__",
     "pgmpy.inference.dbn_inference:DBNInference._get_clique",
@@ -1152,7 +1166,7 @@ def check_edit_sequence(ctx, spec, d):
     check_constant_bn(ctx, tpl2, d, 0, tag=f" [after {label}]")
     inf2 = ctx.call(DBNInference, d)
     if ctx.failed(inf2):
-        if not (isolated_vars(tpl2) or not slices_connected(tpl2)):
+        if slices_connected(tpl2) or inf2.type != "ValueError":      # disconnected slice graph: documented refusal
             ctx.violation(f"c17:exception:{inf2.type}@{inf2.where}", f"{label}: DBNInference(model) raised {inf2!r}")
         return
     U2 = Unrolled(tpl2)
